@@ -17,6 +17,8 @@ package main
 
 import (
 	"bytes"
+	"encoding/hex"
+	"encoding/json"
 	"fmt"
 	"io"
 	"os"
@@ -339,8 +341,25 @@ func c05bCorr(c *Ctx, st *h.Stage, cases []*c05bCase) error {
 		}
 		st.Tag("corr=equal")
 	}
+	// the Lean specification on the token lists of input and output (real lexer on both)
+	lines = lines[:0]
+	for _, cs := range cases {
+		lines = append(lines, "spec.c05b.holds "+h.Bool(cs.cfg.inline)+" "+c05bGroups(cs.toks)+" "+c05bGroups(cs.otoks))
+	}
+	rep, err = h.Eval(lines)
+	if err != nil {
+		return err
+	}
 	for i, cs := range cases {
-		c05bJudge(c, st, cs, trigs[i])
+		var lean []string
+		if b, ok, msg := h.DecodeReply(rep[i]); ok {
+			for _, it := range h.DecodeListReply(b) {
+				lean = append(lean, string(it))
+			}
+		} else {
+			c.R.Add(h.Finding{Stage: st.Name, Kind: "diff", What: "spec.c05b.holds: driver error " + msg, Input: cs.key})
+		}
+		c05bJudge(c, st, cs, trigs[i], lean)
 	}
 	return nil
 }
@@ -354,11 +373,11 @@ var c05bTextNumRefRe = regexp.MustCompile(`&#0*(60|38);|&#x0*(3[cC]|26);`)
 // clause → triggers of known findings that excuse it (ids from known_findings.json)
 var c05bExcuse = map[string][]string{
 	"attr-value": {"foreignAttr"}, "wf": {"textNumRef", "foreignAttr", "emptyFO", "styleAmp"}, "text": {"textNumRef", "foreignAttr"}, "ns": {"svgPrefix", "foPrefix"}, "pi": {"pi"},
-	"doctype": {"doctypeSpace"}, "attr-text": {"textAttrDim"}, "attr-lost-type": {"styleType"}, "tree": {"foreignAttr"}, "attr-lost": {"foreignAttr"}, "attr-extra": {"foreignAttr"},
+	"doctype": {"doctypeSpace"}, "attr-text": {"textAttrDim"}, "lean-values": {"textAttrDim"}, "attr-lost-type": {"styleType"}, "tree": {"foreignAttr"}, "attr-lost": {"foreignAttr"}, "attr-extra": {"foreignAttr"},
 }
 
 // c05bJudge: the property on the real output (independent of the model); trigs = token-level triggers from Lean
-func c05bJudge(c *Ctx, st *h.Stage, cs *c05bCase, leanTrigs map[string]bool) {
+func c05bJudge(c *Ctx, st *h.Stage, cs *c05bCase, leanTrigs map[string]bool, lean []string) {
 	if cs.cfg.sub == "stub" {
 		st.Tag("oracle=skipped(stub style minifier writes markup characters)")
 		return
@@ -380,6 +399,28 @@ func c05bJudge(c *Ctx, st *h.Stage, cs *c05bCase, leanTrigs map[string]bool) {
 	for t, on := range trig {
 		if on {
 			st.Tag("trigger=" + t)
+		}
+	}
+	// Lean clause (only where the guards of svg_structure_partial hold and the Go oracle has nothing to report)
+	if cl == "" {
+		guarded, leanCl := false, ""
+		for _, x := range lean {
+			if strings.HasPrefix(x, "guard:") {
+				guarded = true
+				st.Tag("lean-" + x)
+			} else {
+				leanCl = x
+			}
+		}
+		if !guarded {
+			if leanCl == "" {
+				st.Tag("lean-spec=holds")
+			} else {
+				cl, desc = "lean-"+leanCl, "spec.c05b.holds (Verif.Spec.SvgDocSpec.structEquiv) on the tokens of input and output"
+				trig["textAttrDim"] = true // the Lean value relation treats the text-valued attributes literally
+			}
+		} else {
+			st.Tag("lean-spec=not-applicable(guard)")
 		}
 	}
 	if cl == "" {
@@ -417,6 +458,48 @@ func init() {
 				c05bOpen["defs1"] = k.ID
 			}
 		}
+		// ---- replay of a recorded failing input (./check C05B --replay file) ----
+		if c.Replay != "" {
+			if b, err := os.ReadFile(c.Replay); err == nil {
+				var obj struct {
+					Finding struct {
+						Hex string `json:"input_hex"`
+					} `json:"finding"`
+				}
+				if json.Unmarshal(b, &obj) == nil && obj.Finding.Hex != "" {
+					src, _ := hex.DecodeString(obj.Finding.Hex)
+					st := c.R.StartStage("replay", "the recorded failing input, all configurations")
+					var cases []*c05bCase
+					for _, cfg := range c05bCfgs {
+						if cs := c05bPrepare(c, st, src, cfg); cs != nil {
+							cases = append(cases, cs)
+						}
+					}
+					err := c05bCorr(c, st, cases)
+					st.End()
+					return err
+				}
+			}
+		}
+
+		// ---- known findings: replay the exact inputs on the real code ----
+		for _, k := range h.Known("C05B") {
+			if k.Status != "open" {
+				continue
+			}
+			doc := k.ReplayStr("doc")
+			out, err, crash := c05bMinify([]byte(doc), c05bCfg{sub: "css"})
+			still := crash != "" || err != nil
+			if !still {
+				cl, _, _, inWF := c05bJudgeTree([]byte(doc), out, c05bCfg{sub: "css"})
+				still = inWF && cl != ""
+				if exp := k.ReplayStr("expected"); exp != "" {
+					still = string(out) != exp
+				}
+			}
+			c.R.AddKnown(k.ID, still, k.What, string(out))
+		}
+
 		st := c.R.StartStage("fixed", "hand-written SVG documents (svg_test.go shapes, every branch of the loop) x configurations; model on the real lexer's tokens vs svg.Minify bytes; non-trivial = output differs from input")
 		var cases []*c05bCase
 		for _, f := range c05bFixed {
@@ -428,6 +511,47 @@ func init() {
 		}
 		if err := c05bCorr(c, st, cases); err != nil {
 			return err
+		}
+		st.End()
+
+		// ---- dimensions: every number notation x every unit through the real code ----
+		st = c.R.StartStage("dimensions", "every number spelling x every unit as `<g width=V/>` through svg.Minify: value and unit judged by math/big (independent of the model); hypothesis hagree of dimension_value_ok (spec.c05b.dim) and contract NumOk (spec.c05b.numok) on the real minify.Number; non-trivial = value rewritten")
+		{
+			var ins, outs []string
+			lines := []string{}
+			for _, nmb := range c05bNumbers {
+				for _, u := range c05bUnits {
+					v := nmb + u
+					res, err, crash := c05bMinify([]byte(`<g width="`+v+`"/>`), c05bCfg{sub: "none"})
+					if crash != "" || err != nil || !bytes.HasPrefix(res, []byte(`<g width="`)) || !bytes.HasSuffix(res, []byte(`"/>`)) {
+						continue
+					}
+					ov := string(res[len(`<g width="`) : len(res)-3])
+					ins, outs = append(ins, v), append(outs, ov)
+					lines = append(lines, "spec.c05b.dim "+h.HexS(v))
+					lines = append(lines, "spec.c05b.numok "+h.HexS(nmb)+" "+h.Hex(minify.Number([]byte(nmb), 0)))
+				}
+			}
+			rep, err := h.Eval(lines)
+			if err != nil {
+				return err
+			}
+			for i := range ins {
+				st.Count(ins[i], ins[i] != outs[i])
+				agree, _, _ := h.DecodeReply(rep[2*i])
+				nok, _, _ := h.DecodeReply(rep[2*i+1])
+				_, _, isDim := c05bDimOf(ins[i])
+				st.Tag("spec.c05b.dim=" + map[string]string{"": "not-a-dimension", "1": "agrees", "0": "parse.Dimension-disagrees(trailing dot)"}[string(agree)])
+				if ins[i] != outs[i] && !c05bSameDim(ins[i], outs[i]) {
+					c.R.Add(h.Finding{Stage: st.Name, Kind: "fail", What: "svg dimension: value or unit changed", Input: h.Q([]byte(ins[i])), Impl: h.Q([]byte(outs[i]))})
+				}
+				if string(nok) == "0" {
+					c.R.Add(h.Finding{Stage: st.Name, Kind: "fail", What: "minify.Number breaks the contract NumOk (value / number shape)", Input: h.Q([]byte(ins[i])), Impl: h.Q([]byte(outs[i]))})
+				}
+				if string(agree) == "0" && isDim && ins[i] != outs[i] && !strings.Contains(ins[i], ".e") && !strings.HasSuffix(strings.TrimRight(ins[i], "%abcdefghijklmnopqrstuvwxyzABCDEFGHIJKLMNOPQRSTUVWXYZ"), ".") {
+					c.R.Add(h.Finding{Stage: st.Name, Kind: "diff", What: "spec.c05b.dim: parse.Dimension (model) and the SVG number grammar disagree on a rewritten value", Input: h.Q([]byte(ins[i])), Impl: h.Q([]byte(outs[i]))})
+				}
+			}
 		}
 		st.End()
 
